@@ -598,7 +598,9 @@ def replay_text(case, obs, mode):
     return "\n".join(lines)
 
 
-TECHNIQUE = ("Coq proofs by induction over histories about a Gallina transcription of registry.py (Components, "
+TECHNIQUE = ("fail-closed ast translator regenerating the bookkeeping kernels of registry.py as Gallina on every run, proved "
+             "equal to the model; "
+             "Coq proofs by induction over histories about a Gallina transcription of registry.py (Components, "
              "_UtilityRegistrations) on top of the shared adapter-registry model; refinement to a ledger Spec; "
              "vm_compute correspondence with both implementations and a ledger-only Spec oracle on their raw answers")
 LEVEL_TEXT = ("The bookkeeping kernels of registry.py (_UnhashableComponentCounter, _UtilityRegistrations, the eight "
